@@ -215,12 +215,13 @@ def sagitta(coarse, fine):
         a = coarse[i]
         b = coarse[(i + 1) % n]
         m = fine[(2 * i + 1) % (2 * n)]
-        # distance of m from the great circle through a, b
-        nrm = cross(a, b)
-        ln = norm(nrm)
-        if ln == 0:
+        # distance of m from the chord a-b, in difference form (a x b itself is useless for nearby points: its direction is
+        # known only to 1e-16/|a-b|)
+        ab = sub(b, a)
+        lab = norm(ab)
+        if lab == 0:
             continue
-        d = abs(dot(m, nrm)) / ln
+        d = norm(cross(sub(m, a), ab)) / lab
         if d > worst:
             worst = d
     return math.asin(min(1.0, worst))
